@@ -3,6 +3,8 @@
 #include "psc/scope/block.h"
 #include "psc/scope/context.h"
 #include "procedure.h"
+#include "psc/error.h"
+#include "nodes/loop/control.h"
 
 using namespace PSC;
 
@@ -32,7 +34,13 @@ std::vector<PSC::DataType> Procedure::getTypes() const {
 }
 
 void Procedure::run(PSC::Context &ctx) {
-    block->run(ctx);
+    try {
+        block->run(ctx);
+    } catch (BreakErrSignal &e) {
+        throw PSC::InvalidUsageError(e.token, ctx, "'BREAK' statement");
+    } catch (ContinueErrSignal &e) {
+        throw PSC::InvalidUsageError(e.token, ctx, "'CONTINUE' statement");
+    }
 }
 
 Function::Function(
